@@ -162,7 +162,8 @@ theorem renderSections_keys (m : Message) (L : Nat) (pt : Bool) (a b : Nat) (r :
     rw [hbase] at h
     simp only at h
     have hk2 : KeysLong r2.tbl := by
-      unfold Message.base at hbase
+      have hbase := base_ok hbase
+      unfold Message.base0 at hbase
       split at hbase
       · simp at hbase
       · rename_i r1 h1
